@@ -547,13 +547,18 @@ func TestSelfCLI(t *testing.T) {
 	probes = append(probes, probe{"-u lost", c, func(l *cliLaunch) { drop(l, "-u") }, "C15:cli-chunk:get-wrong-object"})
 
 	for _, p := range probes {
+		if p.want == "" {
+			// an unsabotaged run is an ordinary case of the property: a complaint about it is a
+			// finding in the code under test (with replay file), not a failure of the oracle
+			if !hx.Case(t, spec, p.c) {
+				return
+			}
+			continue
+		}
 		cliSabotage = p.sabotage
 		o := run(p.c)
 		cliSabotage = nil
 		if p.want == "" {
-			if len(o.Violations) > 0 {
-				fail("CLI %s: expected no violation, got [%s] %s", p.name, o.Violations[0].Sig, o.Violations[0].Msg)
-			}
 			continue
 		}
 		hit := false
